@@ -449,3 +449,40 @@ Proof.
   intros H. unfold newline. change default_width with 79. change default_indent with (s2l "  ").
   rewrite H. reflexivity.
 Qed.
+
+(* ---- a run of write$ / newline$ operations (Interpreter.output / Interpreter.newline) ---- *)
+
+Lemma run_output_total ops : forall buffer lines, exists out, run_output ops buffer lines = Ok out.
+Proof.
+  induction ops as [|[s|u] r IH]; intros buffer lines; cbn [run_output].
+  - eexists; reflexivity.
+  - apply IH.
+  - unfold newline. destruct (wrap_total (concat buffer) default_width default_indent) as [w Hw].
+    rewrite Hw. cbn [bind fst snd]. apply IH.
+Qed.
+
+Lemma run_output_writes_only ss : forall buffer lines,
+  run_output (map inl ss) buffer lines = Ok (concat lines).
+Proof.
+  induction ss as [|s ss IH]; intros buffer lines; cbn [map run_output]; [reflexivity|apply IH].
+Qed.
+
+Lemma run_output_line ss u r : forall buffer lines w,
+  wrap (concat (buffer ++ ss)) 79 (s2l "  ") = Ok w ->
+  run_output (map inl ss ++ inr u :: r) buffer lines = run_output r [] (lines ++ [w; [c_nl]]).
+Proof.
+  induction ss as [|s ss IH]; intros buffer lines w Hw; cbn [map app run_output].
+  - rewrite app_nil_r in Hw. rewrite (newline_wraps _ _ _ Hw). reflexivity.
+  - apply IH. rewrite <- app_assoc. exact Hw.
+Qed.
+
+Lemma run_output_prefix ops : forall buffer lines out,
+  run_output ops buffer lines = Ok out -> exists t, out = concat lines ++ t.
+Proof.
+  induction ops as [|[s|u] r IH]; intros buffer lines out; cbn [run_output].
+  - intros [= <-]. exists []. now rewrite app_nil_r.
+  - apply IH.
+  - unfold newline. destruct (wrap_total (concat buffer) default_width default_indent) as [w Hw].
+    rewrite Hw. cbn [bind fst snd]. intros H. destruct (IH _ _ _ H) as [t Ht].
+    exists (w ++ [c_nl] ++ t). rewrite Ht, concat_app. cbn [concat]. rewrite app_nil_r, <- !app_assoc. reflexivity.
+Qed.
